@@ -297,7 +297,10 @@ def check_case(c):
                 try:
                     with time_limit(60.0):
                         if op == "eval":
-                            run()
+                            try:
+                                run()
+                            except DOC:       # e.g. hypsum's documented ValueError where the value is exactly zero
+                                pass
                             seen.setdefault(tag, set()).add(p)
                         elif op == "abort":
                             cnt = Injector()
